@@ -9,7 +9,7 @@ from harness import gen
 from harness.framework import Suite
 
 PID = "C18"
-LEAN_MODS = ["SwcVerif.Props.C18", "SwcVerif.Props.C05", "SwcVerif.Props.C18Gen"]
+LEAN_MODS = ["SwcVerif.Props.C18", "SwcVerif.Props.C05", "SwcVerif.Props.C18Gen", "SwcVerif.Props.C18GenRepair"]
 TRANSLATE_ALGO = ["AlgoDsu", "AlgoCheckers", "AlgoNormalizer", "AlgoSort", "AlgoRepair"]   # Gen/AlgoDsu.lean, Gen/AlgoCheckers.lean are regenerated from swcgeom/utils/dsu.py, swc_utils/base.py::get_dsu and swc_utils/checker.py::has_cyclic / is_bifurcate on every run
 DRIVER_FILES = ["SwcVerif/Model/AlgoRunDsu.lean", "SwcVerif/Model/AlgoRunNormalizer.lean", "SwcVerif/Model/AlgoRunRepair.lean"]
 THEOREMS = [
@@ -23,6 +23,10 @@ THEOREMS = [
     "RefineCheckers.hasCyclic_refines", "C18.generated_hasCyclic_spec",
     "RefineCheckers.isBifurcate_refines", "C18.generated_isBifurcate_eq_model", "RefineCheckers.isSorted_refines",
     "RefineNorm.markRoots_refines", "RefineNorm.resetIndex_refines", "C18.generated_markRoots_eq_model", "C18.generated_resetIndex",
+    # root repair: is_single_root, link_roots_to_nearest_ and the tail of read_swc as generated on this run
+    "RefineRepair.isSingleRoot_refines", "RefineRepair.linkRoots_refines", "RefineRepair.readFix_stages",
+    "C18.generated_isSingleRoot_eq_model", "C18.generated_isSingleRoot_total", "C18.generated_linkRoots_eq_model",
+    "C18.generated_repair_nearest_tree",
 ]
 TRUSTED = ["hand-written models Model/Dsu.lean of DisjointSetUnion, has_cyclic, is_bifurcate, get_dsu / is_single_root, mark_roots_as_somas_, "
            "link_roots_to_nearest_ (tied by the c18.* correspondence suites: union/find scripts, ALL parent tables with n ≤ 5, random larger ones, multi-root files)"]
